@@ -1,6 +1,7 @@
 package main
 
 import (
+	"io"
 	"bufio"
 	"bytes"
 	"fmt"
@@ -87,6 +88,40 @@ func raceChild(args []string) {
 					if err == nil && rec != nil {
 						_ = rec.WarcHeader().Get(fmt.Sprintf("x-other-%d", g))
 						_ = rec.Close()
+					}
+				}
+			})
+		case "mergers":
+			// each goroutine reads ITS OWN response and revisit records, merges them, closes everything it holds (the merged
+			// record shares the referenced record's block: both Close calls reach the same buffer), then builds records
+			run(n, func(g int) {
+				for i := 0; i < 6; i++ {
+					u := gowarc.NewUnmarshaler()
+					resp, _, _, err1 := u.Unmarshal(bufio.NewReader(bytes.NewReader(recordBytes("http", 60+g))))
+					rev, _, _, err2 := u.Unmarshal(bufio.NewReader(bytes.NewReader(recordBytes("revisit", 0))))
+					if err1 == nil && err2 == nil && resp != nil && rev != nil {
+						if merged, err := rev.Merge(resp); err == nil && merged != nil {
+							_ = merged.Close()
+						}
+					}
+					if resp != nil {
+						_ = resp.Close()
+					}
+					if rev != nil {
+						_ = rev.Close()
+					}
+					rb := gowarc.NewRecordBuilder(gowarc.Resource)
+					rb.AddWarcHeader("Content-Type", "text/plain")
+					rb.AddWarcHeader("WARC-Target-URI", "http://example.com/")
+					rb.AddWarcHeader("WARC-Date", "2020-01-01T00:00:00Z")
+					_, _ = rb.Write(bytes.Repeat([]byte{byte('a' + g)}, 200+g))
+					if rec, _, err := rb.Build(); err == nil {
+						if rd, err := rec.Block().RawBytes(); err == nil {
+							_, _ = io.ReadAll(rd)
+						}
+						_ = rec.Close()
+					} else {
+						_ = rb.Close()
 					}
 				}
 			})
@@ -228,7 +263,7 @@ func kRace(args []string) (string, string) {
 }
 
 func genRace(r *rng, n int, tier string, emit func(string, ...string)) {
-	base := []string{"builders:4", "opts:4", "unmarshal:4", "readers:4", "readers:4:twice", "writer:4:2", "writer:6:3", "writer:3:1",
+	base := []string{"builders:4", "opts:4", "unmarshal:4", "readers:4", "readers:4:twice", "writer:4:2", "writer:6:3", "writer:3:1", "mergers:4", "mergers:3,builders:3",
 		"builders:3,unmarshal:3,readers:3:twice,writer:3:2", "opts:6,builders:2", "readers:6:twice,unmarshal:2"}
 	for i := 0; i < n; i++ {
 		if i < len(base) {
@@ -237,7 +272,7 @@ func genRace(r *rng, n int, tier string, emit func(string, ...string)) {
 			continue
 		}
 		parts := []string{}
-		for _, k := range []string{"builders", "opts", "unmarshal", "readers", "writer"} {
+		for _, k := range []string{"builders", "opts", "unmarshal", "readers", "writer", "mergers"} {
 			if r.chance(1, 2) {
 				p := fmt.Sprintf("%s:%d", k, r.rangeInt(2, 6))
 				if k == "readers" && r.chance(1, 2) {
